@@ -88,4 +88,73 @@ PROPS = {
         "assumptions": ["consecutive transactions carry distinct write times (the default: wall clock); with a constant explicit write_time and different values the middle crash state is outside C01's quantifier"],
         "explanation": "crash_old_or_new / crash_after_put_is_new / nodes_before_root are proved for every crash point k of commitReqs (order from Gen.facts) and every parent list; the crash stream enumerates EVERY k for SQL transactions, merge-opens and vacuums on the real code and checks old-or-new, acked-implies-new and stability across recovery opens.",
     },
+    "C06": {
+        "modules": ["S3db.Props.C06"],
+        "tie_files": ["vtable_common.go", "sqlite/vtable.go"],
+        "corr": {
+            "quick": [("sql", ["sql", "-n", "120"])],
+            "thorough": [("sql", ["sql", "-n", "2500"])],
+        },
+        "trusted_base": [MAST + " — the real cursor violates it on descending scans of multi-level trees (finding F12)",
+                         "SQLite's xBestIndex/xFilter contract, including the re-check of constraints that are not marked Omit",
+                         "native SQLite (a WITHOUT ROWID twin table in the same connection) is the reference for every statement outcome and query result"],
+        "assumptions": ["UPDATEs that change a key value and OR IGNORE / OR REPLACE are outside the comparison (as the property says)",
+                        "numerically equal INTEGER and REAL keys are not both stored (finding F9); multi-row statements that fail midway inside an explicit transaction are not generated (no savepoints: observation O1)"],
+        "explanation": "window_sound / scan_complete_asc / scan_complete_desc are proved for every constraint list, tree content and direction over the Filter/Next model, whose decision points are tied to the source by the facts (filterWindowAsExpected, nextAsExpected, descSeekFallsBackToMax, bestIndexNeverOmits, filterNullOperandEmpty); the sql stream compares whole programs with native SQLite.",
+    },
+    "C08": {
+        "modules": ["S3db.Props.C08"],
+        "tie_files": ["vtable_common.go"],
+        "corr": {
+            "quick": [("codec", ["codec", "-n", "3000"]), ("sql", ["sql", "-n", "60"]), ("rows", ["rows", "-n", "1500"])],
+            "thorough": [("codec", ["codec", "-n", "60000"]), ("sql", ["sql", "-n", "1200"]), ("rows", ["rows", "-n", "20000"])],
+        },
+        "trusted_base": ["the protobuf wire codec", "the cgo boundary of go.riyazali.net/sqlite and mattn/go-sqlite3 (finding F10: an empty TEXT crosses it as NULL)"],
+        "assumptions": ["empty TEXT values are excluded from the comparison with native SQLite (finding F10); NaN cannot be stored (SQLite turns it into NULL)"],
+        "explanation": "from_to, merge_preserves_values, insert_stores_given, codec_keeps_rows on the model; the codec stream round-trips random nodes through the real marshalProto/unmarshalProto; the sql stream reads back value, typeof() and hex() of every stored value and compares with native SQLite across commit, re-open, fresh readers.",
+    },
+    "C11": {
+        "modules": ["S3db.Props.C11"],
+        "tie_files": ["kv/kv.go"],
+        "corr": {
+            "quick": [("ver", ["ver", "-n", "40"])],
+            "thorough": [("ver", ["ver", "-n", "800"])],
+        },
+        "trusted_base": ["BLAKE2b version names are collision-free", "fakes3 semantics of the object store"],
+        "assumptions": ["no vacuum whose cutoff covers the version (C09/C10)"],
+        "explanation": "historic_open_stable / historic_open_fails_on_missing / version_objects_immutable / empty_version_is_empty over the protocol model with the generated facts (historicLoadsFrom, historicCond, historicFailsOnMissing, nameIsHashOfStoredBytes); the ver stream records s3db_version() and the rows after every step and re-reads every earlier version later, through the Go API and through s3db_changes.",
+    },
+    "C12": {
+        "modules": ["S3db.Props.C12"],
+        "tie_files": ["kv/kv.go"],
+        "corr": {
+            "quick": [("ver", ["ver", "-n", "40"])],
+            "thorough": [("ver", ["ver", "-n", "800"])],
+        },
+        "trusted_base": [MAST + " (DiffCursor yields exactly the keys whose entries differ)"],
+        "assumptions": [],
+        "explanation": "changes_sound / changes_complete / changes_deleted_silent / changes_fault on the model of ChangesCursor over an exact diff; the ver stream queries s3db_changes for ordered pairs of recorded snapshots, checks soundness and completeness against the recorded rows, and re-runs pairs with one failing request (transport error, expired context, NoSuchKey answer) at every request index.",
+    },
+    "C13": {
+        "modules": ["S3db.Props.C13"],
+        "tie_files": ["kv/kv.go", "sqlite/vtable.go"],
+        "corr": {
+            "quick": [("ro", ["ro", "-n", "60"])],
+            "thorough": [("ro", ["ro", "-n", "1500"])],
+        },
+        "trusted_base": ["fakes3 request log (every request of every client is logged with the client's label)"],
+        "assumptions": [],
+        "explanation": "ro_no_mutation is proved over the request-level protocol model for every schedule; the guards it rests on (roGuards, commitGuardBeforeFlush, openCommitsOnlyIfRW, syncSkipsRO) are re-extracted from the source on every run; the ro stream drives read-only tables over buckets with 0-5 unmerged versions through selects, write attempts, refresh/version/changes/vacuum and checks the request log after every operation.",
+    },
+    "C16": {
+        "modules": ["S3db.Props.C16"],
+        "tie_files": ["vtable_common.go"],
+        "corr": {
+            "quick": [("codec", ["codec", "-n", "3000"]), ("sql", ["sql", "-n", "60"])],
+            "thorough": [("codec", ["codec", "-n", "60000"]), ("sql", ["sql", "-n", "1200"])],
+        },
+        "trusted_base": ["the protobuf wire codec", MAST],
+        "assumptions": ["the node cache is used only with entries_per_node >= 16 (finding F22: mast writes into shared cached nodes)"],
+        "explanation": "codec_roundtrip is proved for every well-formed node from the generated codec facts (marshalFields, unmarshalFields, marshalNilLinkAs, unmarshalEmptyLinkAs); the codec stream round-trips random nodes through the real functions; the sql stream re-reads the table through a fresh read-only connection (empty cache) after commits on trees of height 0-4 and checks that no stored object is ever re-written with different bytes.",
+    },
 }
